@@ -83,7 +83,8 @@ class C10(InterpProp):
         prop = property_chart(kinds, k)
         e1, e2 = ChartEnc(sc), ChartEnc(prop)
         ops1 = gen.gen_ops(rnd, kn, self.n_ops)
-        ops = [['create', 0, False, [], 0], ['create', 0, False, [], 0],
+        ign = rnd.random() < 0.25        # the monitored interpreter may well ignore contracts
+        ops = [['create', 0, ign, [], 0], ['create', 0, ign, [], 0],
                ['attach', 0, 0], ['bindprop', 0, 1], ['attach', 0, 1]]
         for op in ops1:
             ops.append(op)
